@@ -68,31 +68,20 @@ func checkTask(ts taskSpec, to taskOut) ([]finding, taskStats) {
 	st.PickOrderFP = fmt.Sprint(len(order), "|", hashStrings(order))
 
 	// clause 3: termination (bounded restatement)
-	if !to.Returned {
-		if to.HangFrames != "" {
-			where := "other"
-			switch {
-			case strings.Contains(to.HangFrames, "downloadBlockFromPeerOld"):
-				where = "downloadBlockFromPeerOld"
-			case strings.Contains(to.HangFrames, "checkTask"):
-				where = "checkTask"
-			case strings.Contains(to.HangFrames, "downloadBlock"):
-				where = "downloadBlock"
+	if !to.Returned && to.HangFrames != "" {
+		var stalled []string
+		for k, rs := range reqs {
+			if rs[0].Mode == mStall {
+				stalled = append(stalled, fmt.Sprintf("%s@%d", k.p, k.h))
 			}
-			var stalled []string
-			for k, rs := range reqs {
-				if rs[0].Mode == mStall {
-					stalled = append(stalled, fmt.Sprintf("%s@%d", k.p, k.h))
-				}
-			}
-			sort.Strings(stalled)
-			shape := "task-hangs:" + where
-			if len(stalled) > 0 {
-				shape += ":stalled-peer"
-			}
-			fs = append(fs, finding{shape, fmt.Sprintf("task %d-%d did not return within %d ms (worst-case retry budget x2 + 30 s); goroutines of the downloader are still blocked in %s; stalled requests: %v",
-				ts.Start, ts.End, to.BoundMs, where, stalled), map[string]any{"task": ts, "goroutines": to.HangFrames, "stalled": stalled}})
 		}
+		sort.Strings(stalled)
+		shape := "task-hangs:downloadBlockFromPeerOld"
+		if len(stalled) > 0 {
+			shape += ":stalled-peer"
+		}
+		fs = append(fs, finding{shape, fmt.Sprintf("task %d-%d did not return within %d ms (30 s + 2 x worst-case retry budget); 15 s later the same goroutines were still blocked in the stream exchange of downloadBlockFromPeerOld (no deadline); stalled requests: %v",
+			ts.Start, ts.End, to.BoundMs, stalled), map[string]any{"task": ts, "goroutines": to.HangFrames, "stalled": stalled}})
 	}
 
 	// clause 1: every servable height delivered
@@ -136,13 +125,19 @@ func checkTask(ts taskSpec, to taskOut) ([]finding, taskStats) {
 		detail := ""
 		for i := range ts.Peers {
 			p := &ts.Peers[i]
-			if p.mode(h) == mWrongH && len(reqs[key{p.Name, h}]) > 0 {
-				wid := fmt.Sprintf("parent-%d-%d|%d", ts.Idx, h+p.WrongBy-1, h+p.WrongBy)
-				for _, s := range syncs[h+p.WrongBy] {
-					if s.Hash == wid && s.Peer == p.Name {
-						shape = "undelivered:wrong-height-forwarded"
-						detail = fmt.Sprintf("; peer %s answered the request for %d with block %d, which was forwarded to the blockchain as the result", p.Name, h, h+p.WrongBy)
-					}
+			m := p.mode(h)
+			if (m != mWrongH && m != mNilBlock) || len(reqs[key{p.Name, h}]) == 0 {
+				continue
+			}
+			// the block this peer answers the request for h with: another height, or (nil block on the wire) an empty block of height 0
+			wh, wid := h+p.WrongBy, fmt.Sprintf("parent-%d-%d|%d", ts.Idx, h+p.WrongBy-1, h+p.WrongBy)
+			if m == mNilBlock {
+				wh, wid = 0, "|0"
+			}
+			for _, s := range syncs[wh] {
+				if s.Hash == wid && s.Peer == p.Name {
+					shape = "undelivered:wrong-height-forwarded"
+					detail = fmt.Sprintf("; peer %s answered the request for %d with a block of height %d, which was forwarded to the blockchain as the result", p.Name, h, wh)
 				}
 			}
 		}
